@@ -10,7 +10,7 @@ Proof. destruct x; reflexivity. Qed.
 
 (* one rule in the first pass: decided with the verdict of the full pass, or undecidable *)
 Lemma eval_rule_inner_pass1 c inp x ms r cb :
-  c_cb c = false -> x_matches x = None -> wf_rule inp ms (length (x_prev x)) r = true ->
+  c_cb c && cb = false -> x_matches x = None -> wf_rule inp ms (length (x_prev x)) r = true ->
   forall s, exists k,
     eval_rule_inner c Never inp x r cb s
     = (upd s (pend s ++ reported_of c r (pure_verdict inp (x_disabled x) ms (x_prev x) r)) k,
@@ -18,7 +18,7 @@ Lemma eval_rule_inner_pass1 c inp x ms r cb :
     \/ (nth (r_ns r) (x_disabled x) false = false
         /\ eval_rule_inner c Never inp x r cb s = (upd s (pend s) k, inl (x, RUndecidable))).
 Proof.
-  intros Hcb Hm Hw s. unfold eval_rule_inner, pure_verdict, reported_of, ns_disabled. rewrite Hm, Hcb. cbn [andb].
+  intros Hcb Hm Hw s. unfold eval_rule_inner, pure_verdict, reported_of, ns_disabled. rewrite Hm, Hcb.
   replace {| x_matches := None; x_prev := x_prev x; x_disabled := x_disabled x |} with x
     by (rewrite <- Hm; symmetry; apply ectx_eta).
   destruct (nth (r_ns r) (x_disabled x) false) eqn:Ed.
@@ -81,7 +81,6 @@ Proof. intros dis ms Hb ns H. apply g_fold_mono; assumption. Qed.
 
 (* the global rules in the first pass, against the pure fold of the full pass *)
 Lemma eval_globals_pass1 c inp gs :
-  c_cb c = false ->
   forall dis_a dis_b ms u s,
     length dis_a = length dis_b -> sub_flags dis_a dis_b ->
     wf_globals inp ms gs = true -> ns_bound (length dis_a) gs ->
@@ -93,13 +92,13 @@ Lemma eval_globals_pass1 c inp gs :
       /\ (unk = false -> dis_a = dis_b ->
           dis1 = fst (fst (g_fold c inp dis_b ms gs)) /\ reps1 = snd (g_fold c inp dis_b ms gs)).
 Proof.
-  intros Hcb. induction gs as [|g gs IH]; intros dis_a dis_b ms u s Hl Hsub Hw Hb; cbn [eval_globals g_fold wf_globals] in *.
+  induction gs as [|g gs IH]; intros dis_a dis_b ms u s Hl Hsub Hw Hb; cbn [eval_globals g_fold wf_globals] in *.
   - exists (nchecks s), dis_a, [], false. unfold ret. rewrite app_nil_r, upd_id, orb_false_r. cbn [fst snd].
     split; [reflexivity|]. split; [reflexivity|]. split; [exact Hsub|]. intros _ E. split; [exact E|reflexivity].
   - apply andb_true_iff in Hw as [Hw1 Hw2]. inversion Hb as [|? ? Hg Hrest]; subst.
     unfold bindM at 1.
     destruct (eval_rule_inner_pass1 c inp {| x_matches := None; x_prev := []; x_disabled := dis_a |} ms g false
-                Hcb eq_refl Hw1 s) as [k1 [E1|[Hnd E1]]]; rewrite E1; cbn [x_disabled x_prev] in *.
+                (andb_false_r _) eq_refl Hw1 s) as [k1 [E1|[Hnd E1]]]; rewrite E1; cbn [x_disabled x_prev] in *.
     + (* decided in the first pass *)
       set (va := pure_verdict inp dis_a ms [] g). set (vb := pure_verdict inp dis_b ms [] g).
       set (dis_a' := if va then dis_a else set_nth dis_a (r_ns g) true).
@@ -139,20 +138,19 @@ Proof.
       split; [rewrite orb_true_r; reflexivity|]. split; [exact Hl1|]. split; [exact Hs1|]. discriminate.
 Qed.
 
-Lemma eval_rules_pass1 c inp rs cb :
-  c_cb c = false ->
+Lemma eval_rules_pass1 c inp rs :
   forall dis ms prev s, wf_rules inp ms (length prev) rs = true ->
   exists k ok reps,
-    eval_rules c Never inp {| x_matches := None; x_prev := prev; x_disabled := dis |} rs cb s
+    eval_rules c Never inp {| x_matches := None; x_prev := prev; x_disabled := dis |} rs false s
     = (upd s (pend s ++ reps) k, inl ok)
     /\ (ok = true -> reps = r_fold c inp dis ms prev rs).
 Proof.
-  intros Hcb. induction rs as [|r rs IH]; intros dis ms prev s Hw; cbn [eval_rules r_fold wf_rules] in *.
+  induction rs as [|r rs IH]; intros dis ms prev s Hw; cbn [eval_rules r_fold wf_rules] in *.
   - exists (nchecks s), true, []. unfold ret. rewrite app_nil_r, upd_id. split; reflexivity.
   - apply andb_true_iff in Hw as [Hw1 Hw2].
     unfold bindM.
-    destruct (eval_rule_inner_pass1 c inp {| x_matches := None; x_prev := prev; x_disabled := dis |} ms r cb
-                Hcb eq_refl Hw1 s) as [k1 [E1|[_ E1]]]; rewrite E1; cbn [x_disabled x_prev x_matches].
+    destruct (eval_rule_inner_pass1 c inp {| x_matches := None; x_prev := prev; x_disabled := dis |} ms r false
+                (andb_false_r _) eq_refl Hw1 s) as [k1 [E1|[_ E1]]]; rewrite E1; cbn [x_disabled x_prev x_matches].
     + set (v := pure_verdict inp dis ms prev r).
       assert (Hlen : length (prev ++ [v]) = S (length prev)) by (rewrite app_length; cbn; lia).
       rewrite <- Hlen in Hw2.
@@ -198,7 +196,7 @@ Proof.
     by (destruct (InterruptProofs.good_eval_without_matches c (AbortAt 1) ltac:(discriminate) inp sc) as [E _];
         apply E).
   unfold eval_without_matches. unfold bindM at 1. unfold ctx0.
-  destruct (eval_globals_pass1 c inp (s_globals sc) Hcb (repeat false (s_nns sc)) (repeat false (s_nns sc))
+  destruct (eval_globals_pass1 c inp (s_globals sc) (repeat false (s_nns sc)) (repeat false (s_nns sc))
               (i_matches inp) false s eq_refl (fun ns H => H) Hwg ltac:(rewrite repeat_length; exact Hbg))
     as [k1 [dis1 [reps1 [unk [E1 [Hl1 [Hs1 Heq]]]]]]].
   rewrite E1. clear E1. cbn [orb]. rewrite Hp. cbn [app].
@@ -221,7 +219,7 @@ Proof.
       unfold bindM at 1. rewrite fixup_list'. cbn [x_disabled pend upd evs nchecks].
       unfold bindM at 1.
       match goal with |- context [eval_rules c Never inp ?x (s_rules sc) false ?st] =>
-        destruct (eval_rules_pass1 c inp (s_rules sc) false Hcb D m [] st Hwr) as [k2 [ok [reps [E2 Hok]]]]; rewrite E2
+        destruct (eval_rules_pass1 c inp (s_rules sc) D m [] st Hwr) as [k2 [ok [reps [E2 Hok]]]]; rewrite E2
       end.
       destruct ok.
       * (* every rule decided: the pending rules are the result *)
